@@ -10,9 +10,9 @@
 
 enum Rt { T_PCA = 0, T_PLS, T_CPCA, T_LOO_MLR, T_KMEANS, T_NELDER, T_COUNT };
 static const char *rt_name[] = {"PCA", "PLS", "CPCA", "LeaveOneOut/MLR", "KMeans", "NelderMeadSimplex"};
-enum Deg { D_RANKDEF = 0, D_CONSTCOL, D_ALLCONST, D_DUPROWS, D_TINY, D_NPC_GT_RANK, D_CONST_Y, D_TWOVAL_Y, D_CONST_BLOCK, D_DUP_POINTS, D_FLAT, D_COUNT };
+enum Deg { D_RANKDEF = 0, D_CONSTCOL, D_ALLCONST, D_DUPROWS, D_TINY, D_NPC_GT_RANK, D_CONST_Y, D_TWOVAL_Y, D_CONST_BLOCK, D_DUP_POINTS, D_FLAT, D_TIED, D_COUNT };
 static const char *deg_name[] = {"rank-deficient", "constant-column", "all-constant", "duplicated-rows", "tiny-shape", "npc>rank", "constant-response", "two-valued-response",
-                                 "constant-block", "duplicate-points", "flat-objective"};
+                                 "constant-block", "duplicate-points", "flat-objective", "tied-eigenvalues"};
 
 struct LCase {
   int rt, deg, n, p, ncomp, scaling, ys, nblocks, init, perturb_k;  // perturb_k: 0 = exact, else add 2^-k noise
@@ -57,6 +57,15 @@ static LCase case_from_plan(const Plan &p) {
       case D_CONSTCOL: X = int_lowrank(r, nn, cols, std::min(nn, cols)); { int j = (int)r.below(cols); double v = (double)r.range(-5, 5); for (auto &row : X) row[j] = v; if (cols > 2 && r.chance(0.5)) { int j2 = (int)r.below(cols); for (auto &row : X) row[j2] = v + 1; } } break;
       case D_ALLCONST: X.assign(nn, std::vector<double>(cols, (double)r.range(-3, 3))); break;
       case D_DUPROWS: X = int_lowrank(r, nn, cols, std::min(nn, cols)); for (int i = 1; i < nn; i++) if (r.chance(0.6)) X[i] = X[r.below(i)]; break;
+      case D_TIED: {  // orthogonal +-m columns (Walsh patterns over 8 or 4 rows): the centred cross-product matrix is m^2 n I, every eigenvalue tied
+        X.assign(nn, std::vector<double>(cols, 0.0)); double m = (double)(r.chance(0.5) ? r.range(1, 9) : r.range(1000, 4000));
+        for (int j = 0; j < cols; j++) { double mj = (j == 2 && r.chance(0.5)) ? m / 2 : m; double off = (double)r.range(-4, 4); for (int i = 0; i < nn; i++) X[i][j] = ((((i >> (j % 3)) & 1) ? mj : -mj)) + off; }
+        if (cols >= 2 && r.chance(0.6)) {  // the variables MIX the two tied directions: columns a+b(1+d) and a-b(1+d), d a small dyadic number: eigenvalues 2|a|^2 and
+          // 2|b|^2(1+d)^2, relative gap 2d, and every column is an equal mixture of the two axes (the slowest start for a power iteration)
+          double d = r.chance(0.2) ? 0.0 : ldexp((double)r.range(1, 7), -(int)r.range(6, 28));
+          for (int i = 0; i < nn; i++) { double a = ((i & 1) ? m : -m), b = (((i >> 1) & 1) ? m : -m) * (1 + d); X[i][0] = a + b + 3; X[i][1] = a - b - 2; }
+        }
+        break; }
       default: X = int_lowrank(r, nn, cols, std::min(nn, cols) + 1); break;  // full rank integers (tiny shapes, npc>rank, response classes)
     }
     perturb(X, r, c.perturb_k);
@@ -172,20 +181,22 @@ struct HLive : Harness {
     int rt = 0; { int x = (int)wr.below(100), acc = 0; for (int i = 0; i < T_COUNT; i++) { acc += weights[i]; if (x < acc) { rt = i; break; } } }
     int n = (int)wr.range(3, 12), pp = (int)wr.range(1, 6), deg = 0, ncomp = 1, rank = 1, ny = 1;
     switch (rt) {
-      case T_PCA: { static const int d[] = {D_RANKDEF, D_CONSTCOL, D_ALLCONST, D_DUPROWS, D_TINY, D_NPC_GT_RANK}; deg = d[wr.below(6)];
+      case T_PCA: { static const int d[] = {D_RANKDEF, D_CONSTCOL, D_ALLCONST, D_DUPROWS, D_TINY, D_NPC_GT_RANK, D_TIED}; deg = d[wr.below(wr.chance(0.06) ? 7 : 6)];
         if (deg == D_TINY) { n = (int)wr.range(2, 3); pp = (int)wr.range(1, 3); }
         rank = (int)wr.range(0, std::max(0, std::min(n - 1, pp) - 1)); ncomp = (int)wr.range(1, pp + 2); break; }
       case T_PLS: { static const int d[] = {D_CONST_Y, D_TWOVAL_Y, D_RANKDEF, D_NPC_GT_RANK, D_DUPROWS, D_CONSTCOL, D_ALLCONST}; deg = d[wr.below(7)];
         n = (int)wr.range(4, 12); ny = (int)wr.range(1, 2); rank = (int)wr.range(1, std::max(1, std::min(n - 1, pp) - 1)); ncomp = (int)wr.range(1, pp + 2); break; }
-      case T_CPCA: { static const int d[] = {D_CONST_BLOCK, D_RANKDEF, D_NPC_GT_RANK, D_DUPROWS, D_CONSTCOL}; deg = d[wr.below(5)];
+      case T_CPCA: { static const int d[] = {D_CONST_BLOCK, D_RANKDEF, D_NPC_GT_RANK, D_DUPROWS, D_CONSTCOL, D_TIED}; deg = d[wr.below(wr.chance(0.06) ? 6 : 5)];
         n = (int)wr.range(4, 10); pp = (int)wr.range(1, 4); rank = (int)wr.range(1, 2); ncomp = (int)wr.range(1, pp + 2); p.seti("blocks", (int)wr.range(2, 3)); break; }
       case T_LOO_MLR: { deg = wr.chance(0.5) ? D_RANKDEF : D_DUPROWS; n = (int)wr.range(5, 10); pp = (int)wr.range(2, 4); rank = 1; break; }
       case T_KMEANS: { deg = D_DUP_POINTS; n = (int)wr.range(3, 14); pp = (int)wr.range(1, 3); ncomp = (int)wr.range(1, 6); p.seti("distinct", (int)wr.range(1, std::max(1, std::min(n, 5)))); p.seti("init", (int)wr.below(4)); p.seti("dup_layout", (int)wr.below(4)); if (ncomp > n) ncomp = n; break; }
       case T_NELDER: { deg = wr.chance(0.6) ? D_FLAT : D_NPC_GT_RANK; pp = (int)wr.range(1, 5); break; }
     }
+    if (deg == D_TIED) { n = wr.chance(0.5) ? 8 : 4; pp = (int)wr.range(2, n == 8 ? 3 : 2); rank = pp; ncomp = (int)wr.range(1, pp); }
     p.seti("routine", rt); p.seti("deg", deg); p.seti("rows", n); p.seti("cols", pp); p.seti("ncomp", ncomp); p.seti("rank", rank); p.seti("ycols", ny);
     p.seti("scaling", rt == T_CPCA ? (int)wr.range(0, 3) : (int)wr.range(-1, 3)); p.seti("yscaling", (int)wr.range(0, 1));
     p.seti("perturb_k", wr.chance(0.25) ? (int)wr.range(20, 45) : 0);
+    if (deg == D_TIED && wr.chance(0.7)) p.seti("perturb_k", (int)wr.range(8, 30));   // close but unequal eigenvalues: slow convergence, caps
     p.setu("data.seed", wr.next() >> 4);
     // unit of the data: an exact power of two (the degenerate structure stays exact), 1e-6 .. 1e6; responses get their own
     if (wr.chance(0.3)) { p.seti("unit_pow2", (int)wr.range(-20, 20)); p.seti("yunit_pow2", wr.chance(0.5) ? 0 : (int)wr.range(-20, 20)); }
@@ -326,6 +337,11 @@ struct HLive : Harness {
           if (k < rank) {
             bool fin = std::isfinite(deg.varexp[k]); for (int i = 0; i < c.n; i++) fin = fin && std::isfinite(deg.scores[i][k]);
             if (!fin) { char m[240]; snprintf(m, sizeof m, "CPCA on %s input: component %zu of %zu defined ones (super scores / total explained variance) is not finite", deg_name[c.deg], k + 1, rank); o.fail("non-finite-leading-component", m); }
+            else {
+              // ... and it is a component: a defined direction must not come back as the all-zero placeholder of a null component
+              LD tn = 0; for (int i = 0; i < c.n; i++) tn += (LD)deg.scores[i][k] * deg.scores[i][k];
+              if (!(tn > 0) || !(deg.varexp[k] > 0)) { char m[260]; snprintf(m, sizeof m, "CPCA on %s input: component %zu of %zu defined ones came back null (super score norm %.3Lg, total explained variance %.6g)", deg_name[c.deg], k + 1, rank, sqrtl(tn), deg.varexp[k]); o.fail("null-component-within-rank", m); }
+            }
           } else if (deg.varexp[k] != deg.varexp[k]) { char m[200]; snprintf(m, sizeof m, "CPCA on %s input: total explained variance of component %zu (beyond rank %zu) is NaN", deg_name[c.deg], k + 1, rank); o.fail("nan-beyond-rank", m); }
         }
         o.counters["probe.cpca_rank_checked"]++;
